@@ -149,37 +149,64 @@ impl<L: LitName> Subject for AagStream<L> {
         while let Some(x) = tri!(r.next_input()) {
             emit(format!("input {}", x.code()));
         }
+        if tri!(r.next_input()).is_some() {
+            emit("AFTER-END: next_input handed out another entry after the end of its section".to_string());
+        }
         let mut r = tri!(r.latches());
         while let Some(l) = tri!(r.next_latch()) {
             emit(format!("latch {} {} {:?}", l.state.code(), l.next_state.code(), l.initialization));
+        }
+        if tri!(r.next_latch()).is_some() {
+            emit("AFTER-END: next_latch handed out another entry after the end of its section".to_string());
         }
         let mut r = tri!(r.outputs());
         while let Some(x) = tri!(r.next_output()) {
             emit(format!("output {}", x.code()));
         }
+        if tri!(r.next_output()).is_some() {
+            emit("AFTER-END: next_output handed out another entry after the end of its section".to_string());
+        }
         let mut r = tri!(r.bad_state_properties());
         while let Some(x) = tri!(r.next_bad_state_property()) {
             emit(format!("bad {}", x.code()));
+        }
+        if tri!(r.next_bad_state_property()).is_some() {
+            emit("AFTER-END: next_bad_state_property handed out another entry after the end of its section".to_string());
         }
         let mut r = tri!(r.invariant_constraints());
         while let Some(x) = tri!(r.next_invariant_constraint()) {
             emit(format!("constraint {}", x.code()));
         }
+        if tri!(r.next_invariant_constraint()).is_some() {
+            emit("AFTER-END: next_invariant_constraint handed out another entry after the end of its section".to_string());
+        }
         let mut r = tri!(r.justice_properties());
         while let Some(x) = tri!(r.next_justice_property_size()) {
             emit(format!("justicesize {}", x));
+        }
+        if tri!(r.next_justice_property_size()).is_some() {
+            emit("AFTER-END: next_justice_property_size handed out another entry after the end of its section".to_string());
         }
         let mut r = tri!(r.justice_property_local_fairness_constraints());
         while let Some(x) = tri!(r.next_justice_property_local_fairness_constraint()) {
             emit(format!("justicelit {}", x.code()));
         }
+        if tri!(r.next_justice_property_local_fairness_constraint()).is_some() {
+            emit("AFTER-END: next_justice_property_local_fairness_constraint handed out another entry after the end of its section".to_string());
+        }
         let mut r = tri!(r.fairness_constraints());
         while let Some(x) = tri!(r.next_fairness_constraint()) {
             emit(format!("fairness {}", x.code()));
         }
+        if tri!(r.next_fairness_constraint()).is_some() {
+            emit("AFTER-END: next_fairness_constraint handed out another entry after the end of its section".to_string());
+        }
         let mut r = tri!(r.and_gates());
         while let Some(g) = tri!(r.next_and_gate()) {
             emit(format!("and {} {} {}", g.output.code(), g.inputs[0].code(), g.inputs[1].code()));
+        }
+        if tri!(r.next_and_gate()).is_some() {
+            emit("AFTER-END: next_and_gate handed out another entry after the end of its section".to_string());
         }
         let mut r = tri!(r.symbols());
         loop {
@@ -441,33 +468,57 @@ impl<L: LitName> Subject for AigStream<L> {
         while let Some(l) = tri!(r.next_latch()) {
             emit(format!("latch {} {:?}", l.next_state.code(), l.initialization));
         }
+        if tri!(r.next_latch()).is_some() {
+            emit("AFTER-END: next_latch handed out another entry after the end of its section".to_string());
+        }
         let mut r = tri!(r.outputs());
         while let Some(x) = tri!(r.next_output()) {
             emit(format!("output {}", x.code()));
+        }
+        if tri!(r.next_output()).is_some() {
+            emit("AFTER-END: next_output handed out another entry after the end of its section".to_string());
         }
         let mut r = tri!(r.bad_state_properties());
         while let Some(x) = tri!(r.next_bad_state_property()) {
             emit(format!("bad {}", x.code()));
         }
+        if tri!(r.next_bad_state_property()).is_some() {
+            emit("AFTER-END: next_bad_state_property handed out another entry after the end of its section".to_string());
+        }
         let mut r = tri!(r.invariant_constraints());
         while let Some(x) = tri!(r.next_invariant_constraint()) {
             emit(format!("constraint {}", x.code()));
+        }
+        if tri!(r.next_invariant_constraint()).is_some() {
+            emit("AFTER-END: next_invariant_constraint handed out another entry after the end of its section".to_string());
         }
         let mut r = tri!(r.justice_properties());
         while let Some(x) = tri!(r.next_justice_property_size()) {
             emit(format!("justicesize {}", x));
         }
+        if tri!(r.next_justice_property_size()).is_some() {
+            emit("AFTER-END: next_justice_property_size handed out another entry after the end of its section".to_string());
+        }
         let mut r = tri!(r.justice_property_local_fairness_constraints());
         while let Some(x) = tri!(r.next_justice_property_local_fairness_constraint()) {
             emit(format!("justicelit {}", x.code()));
+        }
+        if tri!(r.next_justice_property_local_fairness_constraint()).is_some() {
+            emit("AFTER-END: next_justice_property_local_fairness_constraint handed out another entry after the end of its section".to_string());
         }
         let mut r = tri!(r.fairness_constraints());
         while let Some(x) = tri!(r.next_fairness_constraint()) {
             emit(format!("fairness {}", x.code()));
         }
+        if tri!(r.next_fairness_constraint()).is_some() {
+            emit("AFTER-END: next_fairness_constraint handed out another entry after the end of its section".to_string());
+        }
         let mut r = tri!(r.and_gates());
         while let Some(g) = tri!(r.next_and_gate()) {
             emit(format!("and {} {}", g.inputs[0].code(), g.inputs[1].code()));
+        }
+        if tri!(r.next_and_gate()).is_some() {
+            emit("AFTER-END: next_and_gate handed out another entry after the end of its section".to_string());
         }
         let mut r = tri!(r.symbols());
         loop {
